@@ -24,6 +24,8 @@ def run(ctx):
     ctx.guard(bind, ctx)
     ctx.guard(return_rule, ctx)
     ctx.guard(enum_rule, ctx)
+    from . import c04 as _c04
+    ctx.shared(_c04.control, ctx)              # return / break / continue end exactly what they should (a bare return delivers nothing)
     ctx.assume('values computed by nested / recursive calls are not decided; only that each call has its own scope')
     return ('Nullable Node fields computed from the grammar actions and checked against every dereference of an accept() '
             'result in the interpreter; construction sites of walkers/symbol tables and absence of class/module level '
